@@ -77,7 +77,7 @@ func main() {
 	g := sim.NewGen(r)
 	cases := &vh.Cases{Import: "From MV Require Import C17.Model C10.Model.", Type: "env * list op * option outcome * list string * list (nat * bool)", CheckFn: "C10.Model.check", Shard: 100}
 
-	ncases := o.Pick(150, 3000)
+	ncases := o.Pick(300, 5000)
 	reps := 1
 	if o.Thorough() {
 		reps = 2
@@ -152,13 +152,23 @@ func main() {
 				res.Fail("states-tree-not-in-key-order", fmt.Sprintf("case %d: %v", ci, base.StKeys), replay{o.Seed, o.Tier, ci, "keys"})
 			}
 		}
-		_ = distinctOrders
+		orders := map[string]struct{}{}
+		for k := range j.obs {
+			orders[strings.Join(j.obs[k].ProcessOrder, ",")] = struct{}{}
+		}
+		if instate >= 2 {
+			res.Dist(fmt.Sprintf("distinct-completion-orders-per-case(>=2 in state):%s", bucket(len(orders))))
+			if len(orders) > 1 {
+				distinctOrders++
+			}
+		}
 		cases.Add(vh.Tuple(c.CoqEnv(nm), c.CoqOps(nm, order, base.ExpelOrder), base.CoqOutcome(nm), strList(base.StKeys), leafList(base)),
 			map[string]any{"case": ci, "env": c.CoqEnv(nm), "ops": c.CoqOps(nm, order, base.ExpelOrder), "impl": base.CoqOutcome(nm), "keys": base.StKeys, "err": base.Err})
 		if ci < 3 {
 			res.Sample(map[string]any{"case": ci, "entries": len(c.Ops) + len(c.Expels), "in_state": instate, "manifest": base.ManifestHash, "runs": len(j.obs), "state_keys": base.StKeys})
 		}
 	}
+	res.Note(fmt.Sprintf("cases whose runs finished their Process jobs in at least two different orders: %d", distinctOrders))
 	res.Note(fmt.Sprintf("cases: %d x %d schedules in %.1fs (generate+sign %.1fs)", ncases, 1+4*reps, time.Since(t0).Seconds(), tgen.Seconds()))
 	res.ModelCases = cases.Len()
 	if err := cases.Write(o.Out); err != nil {
